@@ -283,3 +283,50 @@ Definition lex_encode (x : lexeme) : list Z :=
   end.
 Definition ref_encode (lx : list lexeme) : list Z := flat_map lex_encode lx.
 Definition ref_source (lx : list lexeme) : list Z := flat_map lex_source lx.
+
+(* ---------------- the image built from (line number, encoded text) records ---------------- *)
+Fixpoint mo5_records (addr : Z) (recs : list (Z * list Z)) : list Z :=
+  match recs with
+  | [] => []
+  | (n, t) :: r => let next := addr + zlen t + 5 in u16 next ++ u16 n ++ t ++ [0] ++ mo5_records next r
+  end.
+Definition mo5_image (recs : list (Z * list Z)) : list Z :=
+  let body := mo5_records mo5_base recs ++ [0; 0] in [255] ++ u16 (zlen body) ++ body.
+
+(* a numbered listing line over printable ASCII, as the properties quantify *)
+Definition printable (c : Z) : bool := (32 <=? c) && (c <=? 126).
+Definition listing_line_ok (l : list Z) : bool :=
+  match l with c :: _ => is_digit19 c | [] => false end
+  && forallb printable (rstrip_nl l) && negb (existsb (Z.eqb 10) (removelast l))
+  && (line_number l <? 65536).
+
+(* ---------------- well-formed lexeme lists (C13's domain) ---------------- *)
+Definition delim_chars : list Z := [46; 44; 40; 41; 58; 59; 32].          (* . , ( ) : ; blank *)
+Definition operator_chars : list Z := [43; 45; 42; 47; 94; 60; 61; 62; 39]. (* + - * / ^ < = > ' *)
+Definition is_delim_or_op (c : Z) : bool := existsb (Z.eqb c) (delim_chars ++ operator_chars).
+Fixpoint prefixes (l : list Z) : list (list Z) :=
+  match l with [] => [] | c :: r => [c] :: map (cons c) (prefixes r) end.
+Definition is_word (k : list Z) : bool := match code_of k with Some _ => true | None => false end.
+Definition text_char (c : Z) : bool := printable c && negb (is_delim_or_op c) && negb (c =? 34).
+Definition lex_ok (x : lexeme) : bool :=
+  match x with
+  | LKeyword w => is_word (upper_ascii w) && negb (is_delim_or_op (hd 0 w)) && forallb text_char w
+  | LText s => negb (match s with [] => true | _ => false end) && forallb text_char s
+               && negb (existsb is_word (prefixes (upper_ascii s)))
+  | LString s _ => forallb (fun c => printable c && negb (c =? 34)) s
+  | LDelim c => is_delim_or_op c
+  end.
+Definition is_wordlike (x : lexeme) : bool := match x with LKeyword _ | LText _ => true | _ => false end.
+(* every keyword / text run is delimited on both sides; an unterminated literal is last *)
+Fixpoint lex_delimited (lx : list lexeme) : bool :=
+  match lx with
+  | [] => true
+  | x :: r =>
+    lex_ok x
+    && match x, r with
+       | (LKeyword _ | LText _), y :: _ => negb (is_wordlike y)
+       | LString _ false, _ :: _ => false
+       | _, _ => true
+       end
+    && lex_delimited r
+  end.
